@@ -422,6 +422,13 @@ class List(list, base.Symbolic, pg_typing.CustomTyping):
       # Generates no update as old value is the same as the new value.
       if old_value is value:
         return None
+      if (pg_typing.MISSING_VALUE == value
+          and pg_typing.MISSING_VALUE != old_value):
+        # Deletion: the list shall not go below its min size.
+        self._check_size(self._num_items() - 1)
+    elif pg_typing.MISSING_VALUE != value:
+      # Insertion or append: the list shall not exceed its max size.
+      self._check_size(self._num_items() + 1)
 
     new_value = self._formalized_value(index, value)
     if index < len(self):
@@ -483,6 +490,26 @@ class List(list, base.Symbolic, pg_typing.CustomTyping):
 
     # Update paths for children.
     self._sync_children_paths()
+
+  def _num_items(self) -> int:
+    """Returns the number of items, not counting items pending deletion."""
+    return sum(1 for v in self.sym_values() if pg_typing.MISSING_VALUE != v)
+
+  def _check_size(self, new_size: int) -> None:
+    """Raises ValueError if a size is not allowed by the value spec."""
+    if self._value_spec is None or not flags.is_type_check_enabled():
+      return
+    min_size = self._value_spec.min_size or 0
+    if new_size < min_size:
+      raise ValueError(
+          self._error_message(
+              f'Length of list ({new_size}) is less than min size '
+              f'({min_size}).'))
+    if self.max_size is not None and new_size > self.max_size:
+      raise ValueError(
+          self._error_message(
+              f'Length of list ({new_size}) is greater than max size '
+              f'({self.max_size}).'))
 
   def _sync_children_paths(self) -> None:
     """Makes the path of each child reflect its current position."""
@@ -605,6 +632,9 @@ class List(list, base.Symbolic, pg_typing.CustomTyping):
     else:
       raise TypeError(
           f'list index must be an integer or slice. Encountered {index!r}.')
+
+    if indices:
+      self._check_size(len(self) - len(indices))
 
     updates = []
     for i in reversed(indices):
